@@ -42,13 +42,13 @@ inductive NameChange (s : State) (n : Name) (d : DymName) : Op → DymName → P
   | updateDetails (c : ContactArg) (cl : Bool) (cfgs : List Config) (contact : Nat) : d.expired s.now = false →
       (cfgs = [] ∨ cfgs = d.configs) →
       NameChange s n d (.updateDetails d.controller n c cl) { d with configs := cfgs, contact := contact }
-  /-- a bid that reaches the sell price of the owner's open, unexpired sell order -/
-  | purchase (a : Acct) (offer : Nat) (so : SellOrder) : AMap.get s.nameSO n = some so → so.expired s.now = false →
-      d.expired s.now = false → a ≠ d.owner →
+  /-- a bid that reaches the sell price of the open, unexpired sell order the owner placed -/
+  | purchase (a : Acct) (offer : Nat) (so : SellOrder) : AMap.get s.nameSO n = some so → so.seller = d.owner →
+      so.expired s.now = false → d.expired s.now = false → a ≠ d.owner →
       NameChange s n d (.buyName a n offer) (cleared a d.expireAt)
   /-- completion of a finished sell order by the owner or the highest bidder -/
-  | complete (a : Acct) (so : SellOrder) (b : Bid) : AMap.get s.nameSO n = some so → so.bid = some b →
-      d.expired s.now = false → (a = d.owner ∨ a = b.bidder) →
+  | complete (a : Acct) (so : SellOrder) (b : Bid) : AMap.get s.nameSO n = some so → so.seller = d.owner →
+      so.bid = some b → d.expired s.now = false → (a = d.owner ∨ a = b.bidder) →
       NameChange s n d (.completeName a n) (cleared b.bidder d.expireAt)
   /-- the owner accepts a buy order -/
   | accept (pfx : Bool) (id m : Nat) (bo : BuyOrder) : AMap.get s.bos id = some bo → bo.isAlias = false → bo.asset = n →
@@ -269,7 +269,7 @@ end
 section
 variable {s s' : State} {n : Name} {d : DymName}
 
-theorem completeNameSOMsg_change {a m} (h : completeNameSOMsg s a m = .ok s') (hd : getName s n = some d) :
+theorem completeNameSOMsg_change {a m} (hI : Inv s) (h : completeNameSOMsg s a m = .ok s') (hd : getName s n = some d) :
     ∃ d', getName s' n = some d' ∧ (d' = d ∨ NameChange s n d (.completeName a m) d') := by
   unfold completeNameSOMsg at h
   mcases' h
@@ -293,7 +293,10 @@ theorem completeNameSOMsg_change {a m} (h : completeNameSOMsg s a m = .ok s') (h
         cases hx : d.expired s.now with
         | false => rfl
         | true => simp [hx] at hne
-      exact ⟨_, if_pos rfl, Or.inr (NameChange.complete a so b hso hb he (by rename (d.owner = a ∨ b.bidder = a) => hp; exact hp.imp Eq.symm Eq.symm))⟩
+      have hsel : so.seller = d.owner := by
+        obtain ⟨d1, hd1', _, hs⟩ := hI.so n so hso
+        rw [getName] at hd; rw [hd] at hd1'; injection hd1' with hd1'; subst hd1'; exact hs
+      exact ⟨_, if_pos rfl, Or.inr (NameChange.complete a so b hso hsel hb he (by rename (d.owner = a ∨ b.bidder = a) => hp; exact hp.imp Eq.symm Eq.symm))⟩
     · exact ⟨d, by simp [hnm]; exact hd, Or.inl rfl⟩
 
 theorem purchaseName_change {a m offer} (hI : Inv s) (h : purchaseName s a m offer = .ok s') (hd : getName s n = some d) :
@@ -318,14 +321,14 @@ theorem purchaseName_change {a m offer} (hI : Inv s) (h : purchaseName s a m off
       injection hb with hb; subst hb
       rename (validatePurchase s _ offer = Except.ok _) => hv
       have hse := validatePurchase_ok hv
-      obtain ⟨d1, hd1, hlt⟩ := hI.so n _ hso
+      obtain ⟨d1, hd1, hlt, hsel⟩ := hI.so n _ hso
       rw [hd] at hd1; injection hd1 with hd1; subst hd1
       have he : d.expired s.now = false := by
         simp only [SellOrder.expired, DymName.expired, decide_eq_false_iff_not] at hse ⊢
         omega
       rename (getName s n = some _) => hd2
       rw [getName, hd] at hd2; injection hd2 with hd2; subst hd2
-      exact ⟨_, if_pos rfl, Or.inr (NameChange.purchase a offer _ hso hse he (fun e => ‹d.owner ≠ a› e.symm))⟩
+      exact ⟨_, if_pos rfl, Or.inr (NameChange.purchase a offer _ hso hsel hse he (fun e => ‹d.owner ≠ a› e.symm))⟩
     · exact ⟨d, by simp [hnm]; exact hd, Or.inl rfl⟩
   · injection h with h; subst h
     exact ⟨d, by simpa [getName] using hd, Or.inl rfl⟩
@@ -416,7 +419,7 @@ theorem name_change {op : Op} (hI : Inv s) (h : exec s op = .ok s') (hd : getNam
   case setController => exact setController_change h hd
   case updateResolve => exact updateResolve_change h hd
   case updateDetails => exact updateDetails_change h hd
-  case completeName => exact completeNameSOMsg_change h hd
+  case completeName => exact completeNameSOMsg_change hI h hd
   case buyName => exact purchaseName_change hI h hd
   case acceptOffer => exact acceptBO_change h hd
   all_goals
